@@ -226,3 +226,21 @@ def gen_exact_fill(rng: random.Random) -> tuple[dict, list]:
     inst = {"W": W, "H": H, "items": items}
     assert valid_inst(inst), inst
     return inst, x
+
+
+def gen_huge_bin(rng: random.Random) -> dict:
+    """Bins of area ~1e15 with items whose short side is 1 (the instance
+    constructor's bound stays cheap for those): values of the area-based
+    objectives leave the range in which floats are exact."""
+    # up to 1e17 area units per bin: with at most ~20 items every value
+    # still fits the kernels' 64 bit integers
+    W = rng.choice([10 ** 11, 10 ** 9, 7 * 10 ** 10, 999_999_937])
+    H = rng.choice([10 ** 6, 6 * 10 ** 5, 999_983])
+    items = [[1, 1, rng.randint(2, 9)]]
+    if rng.random() < 0.6:
+        items.append([1, rng.randint(2, 50), rng.randint(1, 5)])
+    if rng.random() < 0.4:
+        items.append([rng.randint(2, 90), 1, rng.randint(1, 4)])
+    inst = {"W": W, "H": H, "items": items}
+    assert valid_inst(inst), inst
+    return inst
